@@ -234,6 +234,7 @@ func runC11(p *load.Program, r *oblig.Report) {
 	c11DoUnsetsDeadline(p, r)
 	c11ApiVersionsCount(p, r)
 	c11ApiVersionsKeepsConn(p, r)
+	c11ReadersDoNotJudge(p, r, "C11.R17 a completely read error response is a broker error, not a framing error")
 	shareRules(r, "C11", "C11.R15 error exits of the response readers report what is left to drain (C17.R5)", func(sub *oblig.Report) { c17SizeThreading(p, sub) })
 }
 
